@@ -61,14 +61,14 @@ def main(chk):
     if pname is None:
       key += ':partition_name=None'
     Body = make_body(shape, names)
-    with_consts = idx % 4 == 2 and outer == 'none'      # a second, input-only collection on another axis
+    with_consts = idx % 4 in (2, 3) and outer == 'none'      # a second, input-only collection on another axis (scan and vmap)
     if with_consts:
       from flax.typing import In
       key += ':consts=In(0)'
     T = nn.scan(Body, variable_axes=({'consts': In(0), 'params': a1} if with_consts else {'params': a1}), split_rngs={'params': True}, length=5,
                 in_axes=nn.broadcast, metadata_params={nn.PARTITION_NAME: pname}) if idx % 2 == 0 else \
-        nn.vmap(Body, variable_axes={'params': a1}, split_rngs={'params': True}, axis_size=5, in_axes=(None, None), out_axes=(None, 0),
-                metadata_params={nn.PARTITION_NAME: pname})
+        nn.vmap(Body, variable_axes=({'consts': In(0), 'params': a1} if with_consts else {'params': a1}), split_rngs={'params': True}, axis_size=5,
+                in_axes=(None, None), out_axes=(None, 0), metadata_params={nn.PARTITION_NAME: pname})
     inner_is_scan = idx % 2 == 0
     if outer != 'none':
       a2 = neg(k2, len(shape) + 1, use_neg)
@@ -174,6 +174,23 @@ def main(chk):
     if m.w.sharding != want_names:
       chk.violation(key, 'the stacked Param\'s metadata changed after it was mapped over (remove/add not inverse)', case)
 
+  # nnx.scan whose body *returns* sharding-annotated Modules as stacked outputs: the partition name is inserted at the out axis
+  for shape, names, k in (((2, 3), ('x', 'y'), 0), ((2, 3), ('x', 'y'), 1), ((2, 3), ('x', None), 2), ((3,), ('x',), 1), ((3,), (None,), -1)):
+    key = f'C19:nnx-scan-output:shape={shape}:names={names}:out_axis={k}'
+    chk.count(key)
+    try:
+      def body(c, x):
+        return c, M(shape, names)
+      _, stacked = nnx.scan(body, in_axes=(nnx.Carry, 0), out_axes=(nnx.Carry, k), transform_metadata={nnx.PARTITION_NAME: 'layers'})(
+          jnp.zeros(()), jnp.zeros(4))
+      kk = k % (len(shape) + 1)
+      want_shape = shape[:kk] + (4,) + shape[kk:]
+      want_names = names[:kk] + ('layers',) + names[kk:]
+      if tuple(stacked.w.value.shape) != want_shape or tuple(stacked.w.sharding) != want_names:
+        chk.violation(key, f'stacked output Param has shape {tuple(stacked.w.value.shape)} and sharding {tuple(stacked.w.sharding)}, expected {want_shape} / {want_names}', {})
+    except Exception as e:
+      chk.violation(key, f'raised {type(e).__name__}: {str(e)[:200]}', {})
+
   # ---------------------------------------------------------------- rules
   rr = tlc.require_ok(tlc.run('Partition', 'Partition_rules.cfg', workers=1, timeout=900), 'Partition rules')
   chk.add_tlc(rr, 'Partition logical_to_mesh rules')
@@ -198,8 +215,13 @@ def main(chk):
   except ValueError:
     pass
   # a replicated spec for unboxed arrays
-  if nn.get_partition_spec({'x': jnp.zeros((2, 3))})['x'] != P():
-    chk.violation('C19:unboxed', 'get_partition_spec of an unboxed array is not the replicated spec', {})
+  mixed = {'x': jnp.zeros((2, 3)), 'n': np.zeros((2, 3), np.float32), 'p': nn.Partitioned(jnp.zeros((2, 3)), ('a', None)),
+           's': jax.ShapeDtypeStruct((2,), jnp.float32)}
+  specs = nn.get_partition_spec(mixed)
+  chk.count('C19:unboxed')
+  if specs['x'] != P() or specs['n'] != P() or specs['s'] != P() or specs['p'] != P('a', None):
+    chk.violation('C19:unboxed', f'get_partition_spec of a tree mixing boxed and unboxed (jax / numpy / shape struct) leaves: {specs}; unboxed arrays '
+                                 'get the replicated spec', {})
   chk.assumptions.append('no global mesh is active: Partitioned.unbox applies no sharding constraint')
   chk.finish(rule='all axis cases (6 boxed variables x inner axis x optional outer scan/vmap axis, incl. negative axes) in Linen and NNX; all '
                   'name tuples x rule lists of Partition.tla', exhaustive=True)
